@@ -22,7 +22,8 @@ from tcv.core import HarnessError, Result, Violation, digest
 from tcv.pool import pmap
 
 KEYS = ['k', 'k2', '', 'é/☃ \n', 'K' * 300, '../x', 'a"b\\c', '\x00',
-        'caf\u00e9', 'cafe\u0301', 'K', 'k ', ' k', 'ﬁ', 'fi']   # distinct strings that normalisation / case folding / stripping would identify
+        'caf\u00e9', 'cafe\u0301', 'K', 'k ', ' k', 'ﬁ', 'fi',
+        '\u0161\u00edp', '\u010d\u00edp', '?\u00edp']   # ... and keys that differ only in a non-ASCII letter / have `?` in its place   # distinct strings that normalisation / case folding / stripping would identify
 NOV = '<NO_VALUE>'
 
 
